@@ -52,7 +52,7 @@ class Gen:
         self.features = set()
         self.profile = profile or rng.choice(
             ["discrete", "discrete", "mixed", "continuous", "guarded", "guarded", "linear", "nested", "multiassign", "symbolic",
-             "delay", "counter"]
+             "delay", "counter", "abstract"]
         )
         self.fin = {}     # name -> set of possible values (Fractions) as designed
         self.data = []    # ordered data variables (level order)
@@ -364,9 +364,61 @@ class Gen:
         self.data = ["x"]
         return Program(self.typedefs, self.init, ("atom", var("c"), cop, num(bound)), body)
 
+    def build_abstract(self):
+        """conditions on fresh continuous draws (Uniform, so that P(cond) is rational): Polar abstracts them as Bernoulli events"""
+        r = self.rng
+        self.feat("profile-abstract")
+        a = r.choice([F(0), F(0), F(-1), F(1)])
+        b = a + r.choice([F(1), F(2), F(4)])
+        self.draws["u"] = ("Uniform", [num(a), num(b)])
+        init = [("assign", "x", ("poly", num(r.choice([0, 1, 2])))), ("assign", "y", ("poly", num(r.choice([0, 1]))))]
+        body = [("assign", "u", ("draw", "Uniform", [num(a), num(b)]))]
+        t1 = a + (b - a) * r.choice([F(1, 2), F(1, 4), F(3, 4), F(1, 3)])
+        cond = ("atom", var("u"), r.choice([">", "<", ">=", "<="]), num(t1))
+        two = r.random() < 0.35
+        if two:
+            self.draws["v"] = ("Uniform", [num(0), num(1)])
+            body.append(("assign", "v", ("draw", "Uniform", [num(0), num(1)])))
+            cond2 = ("atom", var("v"), r.choice([">", "<"]), num(r.choice([F(1, 2), F(1, 5), F(2, 3)])))
+            cond = (r.choice(["and", "or"]), cond, cond2)
+            self.feat("abstract-two-draws")
+        if r.random() < 0.5:
+            self.fin["c"] = {F(0), F(1)}
+            init.append(("assign", "c", ("poly", num(0))))
+            body.insert(0, ("assign", "c", ("draw", "Bernoulli", [self.prob_expr(False)])))
+            cond = ("and", cond, ("atom", var("c"), "==", num(r.choice([0, 1]))))
+            self.feat("abstract-with-finite-conjunct")
+        dependent = r.random() < 0.2
+        if dependent:
+            # an indicator of the same draw assigned earlier in the iteration: the abstraction is not independent any more
+            self.fin["b"] = {F(0), F(1)}
+            init.append(("assign", "b", ("poly", num(0))))
+            t0 = a + (b - a) * r.choice([F(1, 2), F(2, 3)])
+            body.append(("if", [(("atom", var("u"), ">", num(t0)), [("assign", "b", ("poly", num(1)))])], [("assign", "b", ("poly", num(0)))]))
+            cond = ("and", ("atom", var("b"), "==", num(1)), cond)
+            self.feat("abstract-dependent-indicator")
+        upd1 = ("assign", "x", ("choice", [(add(var("x"), num(1)), num(F(1, 2))), (add(var("x"), num(r.choice([2, 3, -1]))), num(F(1, 2)))])) \
+            if r.random() < 0.5 else ("assign", "x", ("poly", add(scaled(r.choice([F(1), F(1, 2), F(2)]), var("x")), num(1))))
+        branches = [(cond, [upd1])]
+        els = None
+        if r.random() < 0.1:  # a second condition on the same draw: Polar refuses (dependency between abstracted variables)
+            t2 = a + (b - a) * r.choice([F(1, 8), F(7, 8), F(1, 2)])
+            branches.append((("atom", var("u"), r.choice(["<", ">"]), num(t2)), [("assign", "x", ("poly", add(var("x"), num(-1))))]))
+            self.feat("abstract-elif")
+        if r.random() < 0.1:
+            els = [("assign", "y", ("poly", add(var("y"), num(1))))]
+        body.append(("if", branches, els))
+        if r.random() < 0.6:
+            body.append(("assign", "y", ("poly", add(var("y"), r.choice([var("x"), var("u"), mul(var("u"), var("u"))])))))
+        self.init = init
+        self.data = ["x", "y"]
+        return Program([], init, ("true",), body)
+
     def build(self):
         r = self.rng
         prof = self.profile
+        if prof == "abstract":
+            return self.build_abstract()
         if prof == "delay":
             return self.build_delay()
         if prof == "counter":
@@ -467,11 +519,68 @@ class Gen:
         body += self.wrap_in_conditions(data_stmts, fin_stmts[cut:])
         if prof == "multiassign" or r.random() < 0.2:
             body = self.add_multi_assign(body)
+        if self.fin and self.data and prof in ("discrete", "nested", "guarded", "multiassign", "mixed") and r.random() < 0.3:
+            body = self.add_alias_reuse(body)
+        if self.data and prof in ("discrete", "nested", "guarded", "multiassign", "mixed") and r.random() < 0.25:
+            body = self.add_latch(body)
         guard = ("true",)
         if prof == "guarded" or (self.fin and r.random() < 0.15):
             guard = self.make_guard()
         prog = Program(self.typedefs, self.init, guard, body)
         return prog
+
+    def add_alias_reuse(self, body):
+        """the same non-reduced comparison atom in two separate if-statements with the last assignment to one of its
+        variables in between (alias reuse must be invalidated by the reassignment)"""
+        r = self.rng
+        self.feat("alias-reuse-across-reassignment")
+        names = list(self.fin)
+        v = r.choice(names)
+        if len(names) >= 2:
+            w = r.choice([n for n in names if n != v])
+        else:
+            w = next(n for n in FIN_NAMES if n not in self.fin)
+            self.fin[w] = {F(0), F(1)}
+            self.init.append(("assign", w, ("poly", num(r.choice([0, 1])))))
+        shape = r.choice(["var-rhs", "sum", "sum-const"])
+        if shape == "var-rhs":
+            atom = ("atom", var(v), r.choice(["==", "<", ">=", "<="]), var(w))
+        elif shape == "sum":
+            atom = ("atom", add(var(v), var(w)), r.choice([">", ">=", "==", "<"]), num(r.choice([0, 1, 2])))
+        else:
+            atom = ("atom", add(var(v), num(1)), r.choice([">", "==", "<="]), var(w))
+        re_var = r.choice([v, w])
+        vals = sorted(self.fin[re_var])
+        if len(vals) >= 2 and r.random() < 0.6:
+            cs = r.sample(vals, 2)
+            reassign = ("assign", re_var, ("choice", [(num(cs[0]), num(F(1, 2))), (num(cs[1]), num(F(1, 2)))]))
+        else:
+            reassign = ("assign", re_var, ("poly", num(r.choice(vals))))
+        d1 = r.choice(self.data)
+        d2 = r.choice(self.data)
+        first = ("if", [(atom, [("assign", d1, ("poly", add(var(d1), num(1))))])], None)
+        second = ("if", [(atom, [("assign", d2, ("poly", add(var(d2), num(r.choice([1, 2, 3])))))])], None)
+        return body + [first, reassign, second]
+
+    def add_latch(self, body):
+        """a variable used only in the condition of an earlier branch and assigned only in a later branch of the same
+        if-statement (its old value must still be used by the earlier conditions of that statement)"""
+        r = self.rng
+        self.feat("latch-assigned-in-later-branch")
+        name = "l"
+        a, b = r.sample([F(0), F(1), F(2)], 2)
+        self.fin[name] = {a, b}
+        self.init.append(("assign", name, ("poly", num(b))))
+        z = r.choice(self.data)
+        if self.fin and len(self.fin) > 1:
+            c = r.choice([n for n in self.fin if n != name])
+            cond2 = ("atom", var(c), "==", num(r.choice(sorted(self.fin[c]))))
+        else:
+            cond2 = ("true",)
+        st = ("if", [(("atom", var(name), "==", num(a)), [("assign", z, ("poly", add(var(z), num(2))))]),
+                     (cond2, [("assign", name, ("poly", num(a))), ("assign", z, ("poly", add(var(z), num(1))))])], None)
+        pos = r.randint(0, len(body))
+        return body[:pos] + [st] + body[pos:]
 
     def wrap_in_conditions(self, data_stmts, fin_rest):
         r = self.rng
